@@ -269,6 +269,41 @@ int main(int argc, char **argv) {
         else if (!strcmp(cmd, "FORCE")) { P->setstate(ST, atol(a1)); }
         else if (!strcmp(cmd, "SET")) { if (P->set(ST, a1, atoll(a2))) fprintf(stderr, "SET: no such output %s\n", a1); }
         else if (!strcmp(cmd, "SETSTR")) { int n = unhex(a2, bytes); if (P->setstr(ST, a1, bytes, n)) fprintf(stderr, "SETSTR: no such output %s\n", a1); }
+        else if (!strcmp(cmd, "SWEEP")) {
+            /* from the current state: for every byte value, one forced step on a deep copy: feed code, end() code after it, pointer advance.
+               a1 = "s" additionally logs the snapshot + state index after each step (one line per byte) */
+            int detail = a1[0] == 's';
+            if (!detail) fprintf(drv_log, "W ");
+            for (int b = 0; b < 256 && !dead; b++) {
+                void *c = malloc(P->state_size);
+                P->deepcopy(c, ST);
+                void *keep = ST; ST = c;
+                uint8_t *blk = malloc(1); blk[0] = (uint8_t)b;
+                const uint8_t *p = blk;
+                int code = -1, ecode = 15;
+                long hooks_before = hook_records;
+                reset_meter(); drv_pp = &p; drv_buf = blk; chunk_n = 1;
+                if (detail) fprintf(drv_log, "w %d\n", b);
+                if (setjmp(jb) == 0) { in_call = 1; code = P->feed(&p, blk + 1, ST); in_call = 0; }
+                else { log_spin(); dead = 0; code = 14; }
+                drv_pp = NULL;
+                long adv = P->indirect ? (long)(p - blk) : 9;
+                if (detail) { fprintf(drv_log, "v %d %d %ld %ld ", b, code, adv, P->getstate(ST)); P->snap(ST); fputc('\n', drv_log); }
+                if (P->has_end && code == P->code_ok) {
+                    void *c2 = malloc(P->state_size);
+                    P->deepcopy(c2, ST);
+                    void *k2 = ST; ST = c2;
+                    reset_meter();
+                    if (setjmp(jb) == 0) { in_call = 1; ecode = P->end(c2); in_call = 0; } else { ecode = 14; dead = 0; }
+                    ST = k2;
+                    P->deepfree(c2); free(c2);
+                }
+                (void)hooks_before;
+                if (!detail) fprintf(drv_log, "%x%x%lx", code & 15, ecode & 15, adv & 15);
+                P->deepfree(ST); free(ST); ST = keep; free(blk);
+            }
+            if (!detail) fputc('\n', drv_log);
+        }
         else if (!strcmp(cmd, "SNAP")) { fprintf(drv_log, "N "); P->snap(ST); fputc('\n', drv_log); }
         else if (!strcmp(cmd, "FREE")) {
             if (P->has_free) {
